@@ -11,3 +11,4 @@ import Aiorpcx.C01.Props
 import Aiorpcx.C02.Props
 import Aiorpcx.C18.Props
 import Aiorpcx.C03.Props
+import Aiorpcx.C08.Props
